@@ -621,12 +621,14 @@ def ufunc_method(case, r):
 @st.composite
 def storage_case_st(draw):
     n = draw(st.integers(2, 7))
-    kind = draw(st.sampled_from(["masked", "dtype_kw"]))
+    kind = draw(st.sampled_from(["masked", "dtype_kw", "chain"]))
     num = st.floats(-1e3, 1e3, allow_nan=False).filter(lambda x: abs(x) > 1e-2)
     return {"kind": kind, "unit": draw(st.sampled_from(["m", "cm", "g/cm**3", "dimensionless", "km/s"])),
             "vals": draw(st.lists(num, min_size=n, max_size=n)), "mask": draw(st.lists(st.booleans(), min_size=n, max_size=n)),
             "func": draw(st.sampled_from(["abs", "negative", "square", "add_self", "mul_number", "sum_abs"] if kind == "masked" else
-                                         ["sum", "cumsum", "mean", "zeros_like", "full_like", "cumsum_out"])),
+                                         ["sum", "cumsum", "mean", "zeros_like", "full_like", "cumsum_out"] if kind == "dtype_kw" else
+                                         # a function and its inverse: the unit comes back exactly, not up to rounded exponents
+                                         ["cbrt_cube", "sqrt_square", "square_sqrt", "reciprocal_twice", "cbrt_mul3"])),
             "dtype": draw(st.sampled_from(["int64", "int32", "float32", "int64"]))}
 
 
@@ -639,6 +641,20 @@ def storage(case, r):
     with warnings.catch_warnings(), np.errstate(all="ignore"):
         warnings.simplefilter("ignore")
         try:
+            if kind == "chain":
+                a = osyris.Array(values=np.abs(raw), unit=case["unit"])
+                call = {"cbrt_cube": lambda x: np.power(np.cbrt(x), 3), "sqrt_square": lambda x: np.square(np.sqrt(x)),
+                        "square_sqrt": lambda x: np.sqrt(np.square(x)), "reciprocal_twice": lambda x: np.reciprocal(np.reciprocal(x)),
+                        "cbrt_mul3": lambda x: np.cbrt(x) * np.cbrt(x) * np.cbrt(x)}[fn]
+                got, want = call(a), np.abs(raw)
+                want_unit = u
+                if isinstance(got, osyris.Array) and got.unit != u:
+                    r.bad(["storage", "unit-does-not-come-back", fn], f"{fn} of [{case['unit']}] values is labelled [{got.unit}] "
+                          f"({got.unit!r}), which is not equal to [{u}]")
+                    return
+                if isinstance(got, osyris.Array) and not np.allclose(np.asarray(got.values), want, rtol=1e-12, atol=0):
+                    r.bad(["storage", "values", kind, fn], f"got {np.asarray(got.values).tolist()} want {want.tolist()}")
+                return
             if kind == "masked":
                 mv = np.ma.masked_array(raw.copy(), mask=np.array(case["mask"]))
                 a = osyris.Array(values=mv.copy(), unit=case["unit"])
@@ -691,7 +707,7 @@ def storage(case, r):
 def subs(ctx):
     return [
         Sub("storage", storage, strategy=storage_case_st(), quick=300, thorough=3000,
-            required={"storage_masked": 0.25, "storage_dtype_kw": 0.25}),
+            required={"storage_masked": 0.2, "storage_dtype_kw": 0.2, "storage_chain": 0.2}),
         Sub("ufunc_methods", ufunc_method, strategy=umethod_st(), quick=300, thorough=3000),
         Sub("table", numpy_fn, cases=_table_cases()),
         Sub("numpy_fn", numpy_fn, strategy=case_st(), quick=2500, thorough=12000,
